@@ -85,7 +85,7 @@ PROBES = ['call:c2s', 'call:s2c', 'call:concurrent', 'call:big', 'completed', 'f
           'hostile:bytes', 'hostile:meta', 'hostile:value', 'hostile:oversized', 'fault:peer_abort', 'hostile:probe-call', 'behav:raise', 'behav:gen',
           'mode:fire', 'mode:call', 'junk-dispatch']
 TIERS = {
-    'quick': dict(runs=14000, wall=35, chunk=100, cfg=dict(max_calls=6, max_ops=26, big=[3000, 4096, 5000, 9000], max_hostile=5, junk=[5000, 20000])),
+    'quick': dict(runs=24000, wall=30, chunk=50, cfg=dict(max_calls=6, max_ops=26, big=[3000, 4096, 5000, 9000], max_hostile=5, junk=[5000, 20000])),
     'thorough': dict(runs=400000, wall=600, chunk=200, cfg=dict(max_calls=12, max_ops=60, big=[3000, 4090, 4096, 5000, 9000, 20000, 70000],
                                                                max_hostile=10, junk=[5000, 20000, 70000, 300000])),
 }
@@ -948,7 +948,7 @@ class Sim:
                     return K_SPLIT, 'its result packet (%d bytes) reached the sending Protocol in more than one read' % (e - s)
         if wire_id is not None and c.src is not None:
             for o in self.calls:
-                if o is not c and o.src is c.src and o.conn is not c.conn and not o.blocked and self.overlap(c, o):
+                if o is not c and o.src is c.src and o.conn is not c.conn and o.blocked != 'send' and self.overlap(c, o):
                     return K_SHARED, 'calls %s and %s of process %s were in flight on two connections; ids restart at 0 per connection but the table is shared' % (
                         c.tok, o.tok, c.src.tag)
         return None, ''
